@@ -78,6 +78,23 @@ def handle (ws : List String) : String :=
        | .ok es => "ok " ++ " ".intercalate (es.map fun (i, k) => s!"{k}:{i}")
        | .error .macrobody => "ok error macrobody"
        | .error (.badFlag _) => "ok error badflag")
+  | "surfmodel" :: mn :: ps =>
+      -- elementary surface card -> signed list of TRIPOLI-4 surfaces (parameters as IEEE bit patterns)
+      (match ps.mapM parseFloat? with
+       | none => "err bad-number"
+       | some xs =>
+         match convertCard (1e-10 : Float) 1e-14 mn xs with
+         | none => "ok none"
+         | some coll => "ok " ++ " ".intercalate (coll.map fun (t, side) =>
+             s!"{t.kind.toString}:{side}:" ++ ",".intercalate (t.ps.map fun v => toString v.toBits)))
+  | "macromodel" :: mn :: ps =>
+      (match ps.mapM parseFloat? with
+       | none => "err bad-number"
+       | some xs =>
+         match convertMacro (1e-10 : Float) 1e-14 (if mn == "hex" then "rhp" else mn) xs with
+         | none => "ok none"
+         | some coll => "ok " ++ " ".intercalate (coll.map fun (t, side) =>
+             s!"{t.kind.toString}:{side}:" ++ ",".intercalate (t.ps.map fun v => toString v.toBits)))
   | ["boolmon", hx] =>
       match unhex hx >>= Sexp.parse with
       | some s => runBoolMon s
